@@ -463,4 +463,82 @@ theorem eab_is_hs256_over_account_jwk (acct : Pub) (url kid key : Bytes) :
       subst h1 h2 h3
       exact ⟨rfl, b64_roundtrip _, rfl⟩
 
+
+/-! ## the complete output and account key rollover -/
+
+/-- what a successful `jwsEncodeJSON` consists of -/
+theorem jwsEncode_ok (p : Pub) (kid nonce url : Bytes) (pl : Payload) (sg : SigScript)
+    (alg hj payload digest sig : Bytes) (h : jwsEncode p kid nonce url pl sg = .ok alg hj payload digest sig) :
+    ∃ hash, jwsHasher p = some (alg, hash) ∧ hj = jsonObj (headerMembers alg p kid nonce url) ∧
+      payload = payloadField pl ∧ digest = hash.run (signingInput (b64Enc hj) payload) := by
+  unfold jwsEncode at h
+  cases hh : jwsHasher p with
+  | none => simp [hh] at h
+  | some ah =>
+    obtain ⟨a, hash⟩ := ah
+    simp only [hh] at h
+    cases p with
+    | rsa n e =>
+      cases sg with
+      | der r s => simp at h
+      | fail => simp at h
+      | raw b =>
+        simp only [Out.ok.injEq] at h
+        obtain ⟨h1, h2, h3, h4, _⟩ := h
+        subst h1 h2 h3 h4
+        exact ⟨hash, rfl, rfl, rfl, rfl⟩
+    | ec c x y =>
+      cases sg with
+      | raw b => simp at h
+      | fail => simp at h
+      | der r s =>
+        simp only at h
+        cases hr : rsFixed (sigSize c) r s with
+        | none => simp [hr] at h
+        | some sg' =>
+          simp only [hr, Out.ok.injEq] at h
+          obtain ⟨h1, h2, h3, h4, _⟩ := h
+          subst h1 h2 h3 h4
+          exact ⟨hash, rfl, rfl, rfl, rfl⟩
+
+/-- **rollover_shape** (RFC 8555 §7.3.5). The body POSTed to keyChange is an outer JWS in KID form by the
+    account key whose payload is the base64url of an inner JWS; the inner JWS is signed by the NEW key,
+    carries the new key's JWK and the same `url`, no nonce and no kid, and its payload decodes to
+    `{"account": <kid>, "oldKey": <JWK of the old key>}`. -/
+theorem rollover_shape (old new : Pub) (kid nonce url : Bytes) (si so : SigScript) (body : Bytes)
+    (hk : kid.isEmpty = false) (h : rollover old new kid nonce url si so = some body) :
+    ∃ algI plI sigI algO sigO,
+      let hI := headerMembers algI new [] [] url
+      let inner := jwsJSON (b64Enc (jsonObj hI)) plI sigI
+      let hO := headerMembers algO old kid nonce url
+      hasMember hI "jwk" = true ∧ hasMember hI "kid" = false ∧ hasMember hI "nonce" = false ∧
+      (asc "url", JVal.str url) ∈ hI ∧ (asc "jwk", JVal.raw (jwkEncode new)) ∈ hI ∧
+      b64Dec plI = some (rolloverPayload kid old) ∧
+      hasMember hO "kid" = true ∧ hasMember hO "jwk" = false ∧ (asc "kid", JVal.str kid) ∈ hO ∧
+      (asc "url", JVal.str url) ∈ hO ∧
+      body = jwsJSON (b64Enc (jsonObj hO)) (b64Enc inner) sigO ∧ b64Dec (b64Enc inner) = some inner := by
+  unfold rollover at h
+  cases hin : rolloverInner old new kid url si with
+  | err => simp [hin, Out.json] at h
+  | panic => simp [hin, Out.json] at h
+  | ok algI hjI plI dI sigI =>
+    simp only [hin, Out.json] at h
+    cases hout : jwsEncode old kid nonce url (.str (b64Enc (jwsJSON (b64Enc hjI) plI sigI))) so with
+    | err => simp [hout] at h
+    | panic => simp [hout] at h
+    | ok algO hjO plO dO sigO =>
+      simp only [hout, Option.some.injEq] at h
+      obtain ⟨_, _, e2, e3, _⟩ := jwsEncode_ok _ _ _ _ _ _ _ _ _ _ _ hin
+      obtain ⟨_, _, f2, f3, _⟩ := jwsEncode_ok _ _ _ _ _ _ _ _ _ _ _ hout
+      subst e2 e3 f2 f3
+      have x1 := jwk_xor_kid algI new [] [] url
+      have x2 := header_values algI new [] [] url
+      have y1 := jwk_xor_kid algO old kid nonce url
+      have y2 := header_values algO old kid nonce url
+      simp only [List.isEmpty_nil, Bool.not_true] at x1 x2
+      simp only [hk, Bool.not_false] at y1 y2
+      refine ⟨algI, _, sigI, algO, sigO, x1.1, x1.2.1, x1.2.2.2.2.2, x2.2.2.2.1, x2.1 trivial, ?_,
+        y1.2.1, y1.1, y2.2.1 trivial, y2.2.2.2.1, h.symm, b64_roundtrip _⟩
+      exact b64_roundtrip _
+
 end XC.C49
